@@ -83,7 +83,7 @@ class Duo:
                 return
             except (ConnectionError, OSError):
                 self.maybe[side].add(pid)
-                return
+                raise  # an application that does not guard its answer: the transport error leaves on_message
             self.accepted[side].append(pid)
         ep.responder = answer
 
@@ -106,6 +106,20 @@ class Duo:
 
     def deliver(self, frm, cuts=None):
         item = self.w.link.deliver(frm, cuts)
+        self.w.idle()
+        return item
+
+    def deliver_breaking(self, frm):
+        """The next frame from `frm` is read by the other end and the connection breaks right behind it: what that end writes
+        while it handles the frame (an answer from inside on_message, a Heartbeat, a retransmission) already fails at drain()
+        with ConnectionResetError; everything else in flight is lost."""
+        link = self.w.link
+        to = self.other(frm)
+        link.writers[to].drain_exc = ConnectionResetError("simulated reset on write")
+        link.writers[frm].drain_exc = ConnectionResetError("simulated reset on write")
+        item = link.deliver(frm)
+        self.w.idle()
+        link.break_("reset")
         self.w.idle()
         return item
 
